@@ -156,4 +156,60 @@ theorem splitext_ext {x : Name} (hx : x ≠ []) (h : ∀ c ∈ x, c ≠ '.') :
     simp only [extPyi, List.reverse_append]
     simp [splitextRev, hall]
 
+/-- `splitext` cuts the name in two; a non-empty extension leaves a non-empty stem -/
+theorem splitextRev_spec : ∀ (l acc : List Char) (st e : Name), splitextRev l acc = (st, e) →
+    st ++ e = l.reverse ++ acc ∧ (e ≠ [] → st ≠ []) := by
+  intro l
+  induction l with
+  | nil =>
+    intro acc st e h
+    simp only [splitextRev, Prod.mk.injEq] at h
+    obtain ⟨rfl, rfl⟩ := h
+    simp
+  | cons c rest ih =>
+    intro acc st e h
+    simp only [splitextRev] at h
+    split at h
+    · next hc =>
+      subst hc
+      split at h
+      · simp only [Prod.mk.injEq] at h
+        obtain ⟨rfl, rfl⟩ := h
+        simp
+      · next hall =>
+        simp only [Prod.mk.injEq] at h
+        obtain ⟨rfl, rfl⟩ := h
+        refine ⟨by simp, ?_⟩
+        intro _ hnil
+        have : rest = [] := by simpa using hnil
+        subst this
+        simp at hall
+    · have := ih (c :: acc) st e h
+      simpa using this
+
+theorem splitext_spec {n st e : Name} (h : splitext n = (st, e)) : n = st ++ e ∧ (e ≠ [] → st ≠ []) := by
+  unfold splitext at h
+  have := splitextRev_spec n.reverse [] st e h
+  simp only [List.reverse_reverse, List.append_nil] at this
+  exact ⟨this.1.symm, this.2⟩
+
+theorem isPyExt_iff {e : Name} : isPyExt e = true ↔ e = extPyi ∨ e = extPy := by
+  simp [isPyExt]
+
+/-- a directory entry whose `splitext` extension is `.py`/`.pyi` has its `splitext` stem as module name -/
+theorem moduleName_of_splitext {n : Name} (h : isPyExt (splitext n).2 = true) : moduleName n = (splitext n).1 := by
+  cases hse : splitext n with
+  | mk st e =>
+    rw [hse] at h
+    simp only at h ⊢
+    have hs := splitext_spec hse
+    rw [isPyExt_iff] at h
+    rcases h with h | h
+    · subst h
+      have hne : st ≠ [] := hs.2 (by decide)
+      rw [hs.1, moduleName_pyi hne]
+    · subst h
+      have hne : st ≠ [] := hs.2 (by decide)
+      rw [hs.1, moduleName_py hne]
+
 end Layout
